@@ -17,6 +17,7 @@ def parser_function_contract(p, fn, rank, delta, eof_raises, no_include, lenient
     pos0 = p.pos
     ghost("measure_rem", remaining(p))
     ghost("measure_rank", rank)
+    ghost("located_errors", False)
     try:
         fn(p)
     except ParserSyntaxError:
@@ -32,6 +33,34 @@ def parser_function_contract(p, fn, rank, delta, eof_raises, no_include, lenient
         check("whole_input_consumed", p.current().type == TokenType.EOF)
     if eof_raises:
         check("rejects_end_of_input", pos0 < n)
+
+
+def parser_error_location_contract(p, fn, rank, no_include, first_token_not_end):
+    """On a scanner-shaped token list (every token has a position; the list ends with its only EOF token -- assumed in the shape) and called before
+    the end marker is consumed: a ParserSyntaxError raised by fn carries a token that HAS a position (MZParser.parse_as_ast turns exactly that token's
+    trace into the reported error; a position-less token would make the error None, i.e. success: C14, and an error without file and line: C17);
+    and on normal return the end marker is still unconsumed, so the same holds for whoever continues."""
+    n = len(p.tokens)
+    assume(0 <= p.pos and p.pos < n)
+    if first_token_not_end:
+        assume(p.pos < n - 1)  # entered on a token the caller has classified (call-site obligation called_on_a_token_that_is_not_the_end_marker)
+    if no_include:
+        assume(p.current().value != "include")
+    ghost("measure_rem", remaining(p))
+    ghost("measure_rank", rank)
+    ghost("located_errors", True)
+    try:
+        fn(p)
+    except ParserSyntaxError as e:
+        check("syntax_error_carries_a_located_token", e.token.position is not None)
+        return
+    except Exception:
+        return
+    check("end_marker_never_consumed", p.pos < n)
+
+
+def inv_parser_located(p, g):
+    return p.pos >= g["pos0"] and p.pos < len(p.tokens)
 
 
 def inv_parser(p, g):
